@@ -898,7 +898,13 @@ def native_C13(tier, seed):
         with mem() as f:
             h.save(f, "h")
             h2 = SMCHistory.load(f, "h")
-        if list(h2.beta) != h.beta or list(h2.ess) != h.ess or len(h2.sample_history) != npop or not all(np.array_equal(np.asarray(a.x), np.asarray(b.x)) and a.beta == b.beta for a, b in zip(h.sample_history, h2.sample_history)):
+        def _series(v):
+            # a series reloaded as a scalar (or anything that is not a sequence) is a difference, not a reason to stop the check
+            try:
+                return list(v)
+            except TypeError:
+                return ["<not a sequence>", repr(v)[:60]]
+        if _series(h2.beta) != h.beta or _series(h2.ess) != h.ess or len(h2.sample_history) != npop or not all(np.array_equal(np.asarray(a.x), np.asarray(b.x)) and a.beta == b.beta for a, b in zip(h.sample_history, h2.sample_history)):
             fails.append({"id": f"C13-history-{npop}", "obligation": "history save/load", "what": f"reloaded SMCHistory with {npop} stored populations differs (series, or stored populations out of order)", "input": {"stored_populations": npop}})
     # ---- configuration: an instance rebuilt from the saved configuration has the same settings
     from aspire import Aspire
